@@ -265,7 +265,23 @@ def _cleanup_scratch():
         _SCR["pid"] = None
 
 
-_perform = fsops.HistoryHarness.perform
+# the operations are executed exactly as the C01 harness executes them
+_perform = fsops.HistoryHarness({}, [], fsops.Config(outside_ops=False)).perform
+
+
+def _rm(path):
+    """Remove a small real directory tree (cheaper than shutil.rmtree's fd based walk)."""
+    try:
+        with os.scandir(path) as it:
+            entries = list(it)
+        for e in entries:
+            if e.is_dir(follow_symlinks=False):
+                _rm(e.path)
+            else:
+                os.unlink(e.path)
+        os.rmdir(path)
+    except OSError:
+        shutil.rmtree(path, ignore_errors=True)
 
 
 def _drain(q, R, bi, out):
@@ -309,7 +325,7 @@ def exec_win(h, notifs, steps, recursive):
         try:
             for st in steps:
                 if st[0] == "op":
-                    _perform(None, R, O, h.ops[st[1]], state)
+                    _perform(R, O, h.ops[st[1]], state)
                     done += 1
                 else:
                     buf, _n = winsim.encode([notifs[j][1] for j in range(st[1], st[2])])
@@ -333,7 +349,7 @@ def exec_win(h, notifs, steps, recursive):
         return dict(events=events, deliveries=deliveries, final=final, running=em.should_keep_running(), error=error,
                     leftover_reads=len(K.reads), subtree_flags_ok=all(f == recursive for f in sub_flags))
     finally:
-        shutil.rmtree(base, ignore_errors=True)
+        _rm(base)
 
 
 def exec_mac(h, notifs, steps, recursive, suppress_history=False):
@@ -363,7 +379,7 @@ def exec_mac(h, notifs, steps, recursive, suppress_history=False):
         try:
             for st in steps:
                 if st[0] == "op":
-                    _perform(None, R, O, h.ops[st[1]], state)
+                    _perform(R, O, h.ops[st[1]], state)
                     done += 1
                     if not h.root_gone or done < len(h.ops):
                         bind(done)
@@ -384,7 +400,7 @@ def exec_mac(h, notifs, steps, recursive, suppress_history=False):
         final = None if h.root_gone else fsops.walk_tree(R)
         return dict(events=events, deliveries=deliveries, final=final, running=em.should_keep_running(), error=error)
     finally:
-        shutil.rmtree(base, ignore_errors=True)
+        _rm(base)
 
 
 # =================================================================================================
@@ -768,15 +784,15 @@ class Acc:
         for fp, v in o.bad.items():
             if fp not in self.bad or v[0] < self.bad[fp][0]:
                 self.bad[fp] = v
-        if self.sample is None:
+        if o.sample is not None and (self.sample is None or o.sample[0] < self.sample[0]):
             self.sample = o.sample
 
 
-def win_variants(h, recursive):
+def win_variants(h, recursive, pm_max_len=99):
     """Distinct notification sequences of the history, simplest first."""
     seen = []
     out = []
-    for parent_mod in (False, True):
+    for parent_mod in ((False, True) if len(h.ops) <= pm_max_len else (False,)):
         for xdir in (("pair", "split") if recursive else ("split",)):
             n = win_notifs(h, parent_mod, xdir, recursive)
             key = [x[1] for x in n]
@@ -793,7 +809,7 @@ def run_history(acc, layer, cfg, tree0, ops, cap_n):
         if h.dir_over_dir:
             acc.skipped += 1
             return
-        variants = win_variants(h, recursive)
+        variants = win_variants(h, recursive, cfg.get("parent_mod_max_burst", 99))
     else:
         variants = [(dict(), mac_notifs(h))]
     acc.histories += 1
@@ -809,15 +825,21 @@ def run_history(acc, layer, cfg, tree0, ops, cap_n):
             if res["events"]:
                 acc.nontrivial += 1
                 acc.streams.add(hash(tuple(e[1:6] for e in res["events"])))
-            if acc.sample is None and len(h.ops) >= 2 and len(cut) >= 1 and len(res["events"]) >= 3:
-                acc.sample = dict(layer=layer, cfg=cfg, variant=variant, history=h.name(), batches=_batches_str(layer, notifs, steps),
-                                  events=[list(e[:6]) for e in res["events"]])
+            if len(h.ops) == 2 and len(cut) == 1 and len(res["events"]) >= 3 and not probs:
+                key = (h.name(), repr(steps), repr(variant))
+                if acc.sample is None or key < acc.sample[0]:
+                    acc.sample = (key, dict(layer=layer, cfg=cfg, variant=variant, history=h.name(),
+                                            schedule=_batches_str(layer, notifs, steps),
+                                            events=[list(e[:6]) for e in res["events"]]))
             if probs:
                 acc.failing += 1
             for fp, msg in probs:
                 size = (len(h.ops), len(h.tree0), len(notifs), len(cut), mode != "end",
                         variant.get("parent_mod", False), variant.get("xdir") == "split", cfg.get("suppress_history", False),
                         h.name(), repr(steps))
+                old = acc.bad.get(fp)
+                if old is not None and old[0] <= size:
+                    continue
                 case = dict(layer=layer, cfg=cfg, variant=variant, tree0=h.tree0, ops=[list(o) for o in h.ops],
                             steps=[list(s) for s in steps])
                 acc.problem(fp, size, f"{msg}\n history: {h.name()}\n configuration: {cfg} {variant}\n schedule: "
@@ -914,7 +936,7 @@ def history_part(ctx, pool, layer, cfg, trees, n, *, root_delete=False, cap_n=8,
         infra = fp.split(" ", 1)[-1].startswith("INFRA") or "INFRA" in fp
         ctx.add_violation(dict(kind=fp.split(":")[0], fp=fp, msg=msg + f"\n (part {label})", prefix=[], harness="c20",
                                case=case, **({"infra": True} if infra else {})))
-    ctx.add_enum(label, total.executions, total.nontrivial, samples=[total.sample] if total.sample else [],
+    ctx.add_enum(label, total.executions, total.nontrivial, samples=[total.sample[1]] if total.sample else [],
                  states=len(total.streams), transitions=total.records,
                  exhaustive=True,
                  extra=dict(layer=layer, configuration=cfg, initial_trees=len(trees), burst_len=n, histories=total.histories,
@@ -930,36 +952,41 @@ def history_part(ctx, pool, layer, cfg, trees, n, *, root_delete=False, cap_n=8,
 # part D: buffer decoders
 # =================================================================================================
 A, NB, BOM, REV = "a", "\U00010400", "﻿", "￾"
+ACTIONS = (1, 2, 3, 4, 5)
+PADS = (0, 1, 2, 3)
 
 
-def win_names(full):
-    """Names of 0..5 characters.  full: every string over {a, non-BMP} plus the same with a leading U+FEFF /
-    U+FFFE; reduced: per length one pure ASCII, one with a non-BMP character, one per leading special."""
+def win_names(which):
+    """Names of 0..5 characters.
+    'all':     every string over {a, non-BMP character} plus every such string with a leading U+FEFF / U+FFFE;
+    'classes': per length one pure ASCII name, one ending in a non-BMP character, one per leading special;
+    'few':     '', 'a', non-BMP, U+FEFF+'a', 'aaaaa'."""
+    if which == "few":
+        return ["", A, NB, BOM + A, A * 5]
     out = [""]
     for n in range(1, 6):
-        if full:
-            body = ["".join(c) for c in itertools.product((A, NB), repeat=n)]
-            lead = [s + "".join(c) for s in (BOM, REV) for c in itertools.product((A, NB), repeat=n - 1)]
-            out += body + lead
+        if which == "all":
+            out += ["".join(c) for c in itertools.product((A, NB), repeat=n)]
+            out += [s + "".join(c) for s in (BOM, REV) for c in itertools.product((A, NB), repeat=n - 1)]
         else:
-            out += [A * n, (A * (n - 1) + NB)[:n] if n > 1 else NB, BOM + A * (n - 1), REV + A * (n - 1)]
+            out += [A * n, A * (n - 1) + NB, BOM + A * (n - 1), REV + A * (n - 1)]
     return out
 
 
+def _win_space(spec):
+    names, actions, pads = spec
+    return [(a, nm, x) for a in actions for nm in win_names(names) for x in pads]
+
+
 def _win_decode_job(args):
-    k, m, nrec, full = args
-    w = winsim.winapi()
-    parse = w._parse_event_buffer
-    names = win_names(full)
-    per = [(a, nm, x) for a in (1, 2, 3, 4, 5) for nm in names for x in (0, 1, 2, 3)]
-    evals = nontrivial = 0
+    k, m, specs = args
+    parse = winsim.winapi()._parse_event_buffer
+    spaces = [_win_space(sp) for sp in specs]
+    spaces[0] = spaces[0][k::m]
+    nrec = len(specs)
+    evals = nontrivial = nbad = 0
     bad = {}
-    nbad = 0
-    idx = 0
-    first = per[k::m]
-    rest = per
-    for combo in itertools.product(first, *([rest] * (nrec - 1))):
-        idx += 1
+    for combo in itertools.product(*spaces):
         recs = [(a, nm) for a, nm, _ in combo]
         extra = [x for _, _, x in combo]
         buf, n = winsim.encode(recs, extra)
@@ -973,15 +1000,21 @@ def _win_decode_job(args):
         if got != recs:
             nbad += 1
             fp = _win_decode_class(recs, got)
-            size = (nrec, sum(len(r[1]) for r in recs), sum(extra), recs[0][0])
+            size = (nrec, sum(len(r[1]) for r in recs), sum(extra), [r[0] for r in recs], [r[1] for r in recs])
             if fp not in bad or size < bad[fp][0]:
                 bad[fp] = (size, dict(records=[[a, [hex(ord(c)) for c in nm]] for a, nm in recs], extra_padding_dwords=extra,
                                       got=repr(got)))
     return evals, nontrivial, nbad, bad
 
 
+BOM_FP = ("win-decoder: leading U+FEFF stripped (decode('utf-16') takes a leading U+FEFF / U+FFFE of the name for a byte "
+          "order mark; the records are UTF-16-LE)")
+
+
 def _win_decode_class(recs, got):
     if isinstance(got, str):
+        if any(nm[:1] in (BOM, REV) for _, nm in recs):
+            return BOM_FP
         return f"win-decoder: {got.split(':')[0]} raised while decoding a well-formed buffer"
     if len(got) != len(recs):
         return "win-decoder: wrong number of records decoded"
@@ -989,12 +1022,14 @@ def _win_decode_class(recs, got):
         if a != ga:
             return "win-decoder: wrong action decoded"
         if nm != gn:
-            if nm.startswith(BOM) and gn == nm[1:]:
-                return "win-decoder: leading U+FEFF stripped (decode('utf-16') takes it for a byte order mark)"
-            if nm.startswith(REV):
-                return "win-decoder: leading U+FFFE switches the decoder to big endian (decode('utf-16') byte order mark)"
+            if nm[:1] in (BOM, REV):
+                return BOM_FP
             return "win-decoder: wrong name decoded"
     return "win-decoder: other"
+
+
+INO_HEADS_ALL = [(w_, ma, co) for w_ in (1, -1, 2 ** 31 - 1) for ma in (0x100, 0x40000080) for co in (0, 0xFFFFFFFF)]
+INO_HEADS_FEW = [(1, 0x100, 0), (-1, 0x40000080, 0xFFFFFFFF)]
 
 
 def ino_names():
@@ -1012,12 +1047,15 @@ def _ino_encode(recs):
 
 
 def _ino_decode_job(args):
-    k, m, nrec, heads = args
+    k, m, heads_per_record = args
     parse = wd.mod("watchdog.observers.inotify_c").Inotify._parse_event_buffer
-    per = [(w_, ma, co, nm, pad) for (w_, ma, co) in heads for nm in ino_names() for pad in (0, 1, 2, 3)]
+    spaces = [[(w_, ma, co, nm, pad) for (w_, ma, co) in heads for nm in ino_names() for pad in PADS]
+              for heads in heads_per_record]
+    spaces[0] = spaces[0][k::m]
+    nrec = len(spaces)
     evals = nontrivial = nbad = 0
     bad = {}
-    for combo in itertools.product(per[k::m], *([per] * (nrec - 1))):
+    for combo in itertools.product(*spaces):
         buf = _ino_encode(combo)
         want = [(w_, ma, co, nm) for w_, ma, co, nm, _ in combo]
         evals += 1
@@ -1035,99 +1073,59 @@ def _ino_decode_job(args):
                 fp = "inotify-decoder: wrong number of records decoded"
             else:
                 fp = "inotify-decoder: wrong record content decoded"
-            size = (nrec, sum(len(c[3]) + c[4] for c in combo))
+            size = (nrec, sum(len(c[3]) + c[4] for c in combo), [c[:3] for c in combo], [c[3] for c in combo])
             if fp not in bad or size < bad[fp][0]:
                 bad[fp] = (size, dict(records=[[c[0], c[1], c[2], c[3].hex(), c[4]] for c in combo], got=repr(got)))
+    return evals, nontrivial, nbad, bad
+
+
+def _collect(pool, fn, jobs):
+    evals = nontrivial = nbad = 0
+    bad = {}
+    for e, nt, nb, b in pool.imap_unordered(fn, jobs, chunksize=1):
+        evals += e
+        nontrivial += nt
+        nbad += nb
+        for fp, v in b.items():
+            if fp not in bad or v[0] < bad[fp][0]:
+                bad[fp] = v
     return evals, nontrivial, nbad, bad
 
 
 def decoder_part(ctx, pool):
     quick = ctx.tier == "quick"
     M = 64
-    # --- Windows ---------------------------------------------------------------------------------------
-    plan = [(1, True), (2, False), (3, False)] if quick else [(1, True), (2, True), (3, False)]
-    for nrec, full in plan:
-        if quick and nrec == 3:
-            # quick: three records with the reduced name set restricted to lengths 0..2 plus the specials
-            pass
-        jobs = [(k, M, nrec, full) for k in range(M)]
-        evals = nontrivial = nbad = 0
-        bad = {}
-        for e, nt, nb, b in pool.imap_unordered(_win_decode_job_tier, [(j, quick) for j in jobs], chunksize=1):
-            evals += e
-            nontrivial += nt
-            nbad += nb
-            for fp, v in b.items():
-                if fp not in bad or v[0] < bad[fp][0]:
-                    bad[fp] = v
+    full = ("all", ACTIONS, PADS)
+    classes = ("classes", ACTIONS, PADS)
+    few = ("few", (1, 5), (0, 1, 3))
+    classes2 = ("classes", (1, 5), PADS)
+    if quick:
+        plan_w = [[full], [classes, classes], [classes, few, few]]
+    else:
+        plan_w = [[full], [full, full], [classes, classes2, classes2]]
+    for specs in plan_w:
+        evals, nontrivial, nbad, bad = _collect(pool, _win_decode_job, [(k, M, specs) for k in range(M)])
         for fp, (size, case) in sorted(bad.items()):
             ctx.add_violation(dict(kind="win-decoder", fp=fp, prefix=[], harness="c20",
                                    msg=f"winapi._parse_event_buffer(encode(records)) != records: {case}",
                                    case=dict(layer="win-decoder", **case)))
-        names = win_names(full)
-        ctx.add_enum(f"D-win: {nrec} record(s), {'all' if full else 'reduced'} names", evals, nontrivial,
-                     samples=[dict(records=nrec, names=len(names), actions=5, extra_padding_dwords=[0, 1, 2, 3])],
-                     extra=dict(records=nrec, distinct_names=len(names), failing_evaluations=nbad))
-    # --- inotify ---------------------------------------------------------------------------------------
-    heads_full = [(w_, ma, co) for w_ in (1, -1, 2 ** 31 - 1) for ma in (0x100, 0x40000080) for co in (0, 0xFFFFFFFF)]
-    heads_small = [(1, 0x100, 0), (-1, 0x40000080, 0xFFFFFFFF)]
-    for nrec, heads in ((1, heads_full), (2, heads_full if not quick else heads_small), (3, heads_small)):
-        jobs = [(k, M, nrec, heads) for k in range(M)]
-        evals = nontrivial = nbad = 0
-        bad = {}
-        for e, nt, nb, b in pool.imap_unordered(_ino_decode_job, jobs, chunksize=1):
-            evals += e
-            nontrivial += nt
-            nbad += nb
-            for fp, v in b.items():
-                if fp not in bad or v[0] < bad[fp][0]:
-                    bad[fp] = v
+        ctx.add_enum(f"D-win: {len(specs)} record(s)", evals, nontrivial,
+                     samples=[dict(per_record=[dict(names=sp[0], distinct_names=len(win_names(sp[0])), actions=list(sp[1]),
+                                                    extra_padding_dwords=list(sp[2])) for sp in specs])],
+                     extra=dict(records=len(specs), per_record_space=[len(_win_space(sp)) for sp in specs],
+                                name_sets=[sp[0] for sp in specs], failing_evaluations=nbad))
+    plan_i = ([[INO_HEADS_ALL], [INO_HEADS_FEW] * 2, [INO_HEADS_FEW] * 3] if quick else
+              [[INO_HEADS_ALL], [INO_HEADS_ALL] * 2, [INO_HEADS_ALL, INO_HEADS_FEW, INO_HEADS_FEW]])
+    for heads in plan_i:
+        evals, nontrivial, nbad, bad = _collect(pool, _ino_decode_job, [(k, M, heads) for k in range(M)])
         for fp, (size, case) in sorted(bad.items()):
             ctx.add_violation(dict(kind="inotify-decoder", fp=fp, prefix=[], harness="c20",
                                    msg=f"Inotify._parse_event_buffer(encode(records)) != records: {case}",
                                    case=dict(layer="inotify-decoder", **case)))
-        ctx.add_enum(f"D-inotify: {nrec} record(s)", evals, nontrivial,
-                     samples=[dict(records=nrec, heads=[list(h_) for h_ in heads], names=[n.hex() for n in ino_names()],
-                                   nul_padding=[0, 1, 2, 3])],
-                     extra=dict(records=nrec, failing_evaluations=nbad))
-
-
-def _win_decode_job_tier(arg):
-    job, quick = arg
-    k, m, nrec, full = job
-    if nrec == 3 and quick:
-        return _win_decode_job3_quick(k, m)
-    return _win_decode_job(job)
-
-
-def _win_decode_job3_quick(k, m):
-    """quick tier, 3 records: names restricted to one per class and length 0..5 for the first record and to
-    {'' , 'a', NB, BOM+'a', 'aaaaa'} for the others."""
-    w = winsim.winapi()
-    parse = w._parse_event_buffer
-    first = [(a, nm, x) for a in (1, 2, 3, 4, 5) for nm in win_names(False) for x in (0, 1, 2, 3)][k::m]
-    rest = [(a, nm, x) for a in (1, 5) for nm in ("", A, NB, BOM + A, A * 5) for x in (0, 1, 3)]
-    evals = nontrivial = nbad = 0
-    bad = {}
-    for combo in itertools.product(first, rest, rest):
-        recs = [(a, nm) for a, nm, _ in combo]
-        extra = [x for _, _, x in combo]
-        buf, n = winsim.encode(recs, extra)
-        evals += 1
-        nontrivial += 1
-        try:
-            got = parse(buf + b"\xAA" * 8, n)
-        except Exception as e:  # noqa: BLE001
-            got = f"{type(e).__name__}: {e}"
-        if got != recs:
-            nbad += 1
-            fp = _win_decode_class(recs, got)
-            size = (3, sum(len(r[1]) for r in recs), sum(extra), recs[0][0])
-            if fp not in bad or size < bad[fp][0]:
-                bad[fp] = (size, dict(records=[[a, [hex(ord(c)) for c in nm]] for a, nm in recs], extra_padding_dwords=extra,
-                                      got=repr(got)))
-    return evals, nontrivial, nbad, bad
-
+        ctx.add_enum(f"D-inotify: {len(heads)} record(s)", evals, nontrivial,
+                     samples=[dict(wd_mask_cookie_per_record=[[list(h_) for h_ in hs] for hs in heads],
+                                   names=[n.hex() for n in ino_names()], nul_padding=list(PADS))],
+                     extra=dict(records=len(heads), failing_evaluations=nbad))
 
 # =================================================================================================
 def setup(tier):
@@ -1144,7 +1142,7 @@ def plan(tier):
     small, ns = (T(1), 2) if q else (T(2), 2)
     W = lambda **kw: dict(recursive=True, **kw)
     return [
-        dict(layer="win", cfg=dict(recursive=True), trees=big, n=n, label="W recursive"),
+        dict(layer="win", cfg=dict(recursive=True, parent_mod_max_burst=2), trees=big, n=n, label="W recursive"),
         dict(layer="win", cfg=dict(recursive=False), trees=small, n=ns, label="W non-recursive"),
         dict(layer="win", cfg=dict(recursive=True), trees=small if q else T(2), n=2, root_delete=True, label="W root deleted"),
         dict(layer="mac", cfg=dict(recursive=True), trees=big, n=n, label="M recursive"),
